@@ -13,18 +13,20 @@ open Muscle Muscle.Wire Muscle.Gen
 
 /-! ## sender -/
 
-def binQueueBytes : List Msg → Bytes
+def binQueueBytes (P : BinParams) (lvl : Nat) : List Msg → Bytes
   | [] => []
-  | m :: r => frame m ++ binQueueBytes r
+  | m :: r => frameZ P lvl m ++ binQueueBytes P lvl r
 
-theorem binQueueBytes_append (a b : List Msg) : binQueueBytes (a ++ b) = binQueueBytes a ++ binQueueBytes b := by
+theorem binQueueBytes_append (P : BinParams) (lvl : Nat) (a b : List Msg) :
+    binQueueBytes P lvl (a ++ b) = binQueueBytes P lvl a ++ binQueueBytes P lvl b := by
   induction a with
   | nil => rfl
   | cons x r ih => simp [binQueueBytes, ih, List.append_assoc]
 
-def binPending (t : BinTx) : Bytes := t.cur ++ binQueueBytes t.queue
+def binPending (P : BinParams) (lvl : Nat) (t : BinTx) : Bytes := t.cur ++ binQueueBytes P lvl t.queue
 
-theorem binTx_refines : TxRefines binTx (fun t m => { t with queue := t.queue ++ [m] }) binPending frame where
+theorem binTx_refines (P : BinParams) (lvl : Nat) :
+    TxRefines (binTx P lvl) (fun t m => { t with queue := t.queue ++ [m] }) (binPending P lvl) (frameZ P lvl) where
   settle := by
     intro t
     obtain ⟨cur, queue⟩ := t
@@ -33,7 +35,7 @@ theorem binTx_refines : TxRefines binTx (fun t m => { t with queue := t.queue ++
     | cons a r => simp [binTx, binSettle, binPending]
   cur := by
     intro t
-    exact ⟨binQueueBytes t.queue, rfl, by intro n _; simp [binTx, binPending]⟩
+    exact ⟨binQueueBytes P lvl t.queue, rfl, by intro n _; simp [binTx, binPending]⟩
   enqueue := by
     intro t x
     simp [binPending, binQueueBytes_append, binQueueBytes]
